@@ -178,20 +178,23 @@ KINDS = ["p2pkh", "p2wpkh", "p2sh-p2wpkh", "p2wsh-multi", "p2sh-p2wsh-multi", "p
          "p2tr-script"]
 
 
-def gen_signable(rng, max_in=3):
-    """a PSBT (v0 or v2) spending 1..max_in outputs of wallet 'A' (cosigners 'B', 'C'), with optional per-input sighash"""
+def gen_signable(rng, max_in=3, kinds=None, flag="random", nin=None):
+    """a PSBT (v0 or v2) spending 1..max_in outputs of wallet 'A' (cosigners 'B', 'C'), with optional per-input sighash;
+    directed form: kinds = the input kinds to draw from, flag = the per-input sighash type of every input, nin = inputs"""
     w = wallet("A")
     others = [wallet("B"), wallet("C")]
-    nin = rng.randrange(1, max_in + 1)
+    nin = rng.randrange(1, max_in + 1) if nin is None else nin
     ins = []
     for i in range(nin):
-        kind = rng.choice(KINDS)
+        kind = rng.choice(kinds or KINDS)
         d = make_input(rng, kind, w, others, rng.randrange(0, 50))
         d["seq"] = rng.choice([0xFFFFFFFF, 0xFFFFFFFD, 0, 1])
         d["v2order"] = rng.randrange(3)
         sh = rng.choice([None, None, None, 0, 1, 1, 2, 3, 0x81, 0x82, 0x83])
         if sh == 0 and d["algo"] != "taproot" and rng.random() < 0.7:
             sh = 1
+        if flag != "random":
+            sh = flag
         d["sighash_type"] = sh
         if sh is not None:
             d["pairs"] = d["pairs"] + [(b"\x03", sh.to_bytes(4, "little"))]
